@@ -66,7 +66,13 @@ def main(argv):
             edited_generic(rep, args, d, "tables", "BCT", "1", "2")
         from . import tracefam
 
-        tr = tracefam.run_traces(tracefam.trace_inputs(args.tier, args.seed) if not args.replay else inputs, "C06", d, args.jobs)
+        try:
+            tr = tracefam.run_traces(tracefam.trace_inputs(args.tier, args.seed) if not args.replay else inputs, "C06", d, args.jobs)
+        except tlc.MachineryError as e:
+            if not (rep.violations or stat["viol"] or out["viol"]):
+                raise
+            print("NOTE: per-primitive trace validation could not be completed (%s); the verdicts already reached stand" % str(e)[:120])
+            tr = {"viol": [], "states": 0, "generated": 0}
         for v in tr["viol"]:
             for clause in v["bad"]:
                 if clause.startswith("C06/"):
